@@ -303,6 +303,78 @@ def cli_sample(acc, b, inputs, valgrind_n):
     finally:
         shutil.rmtree(home, ignore_errors=True)
 
+def run_alone(acc, bins, s, family):
+    """One input, alone, on fresh drivers of both build kinds, with the termination procedure of the property."""
+    for kind in ("dbg", "rel"):
+        d = Driver(bins[kind])
+        try:
+            verdict = None
+            for attempt in range(2):
+                try:
+                    verdict = d.call({"op": "query", "q": s, "full": True, "render": True}, timeout=60)
+                    break
+                except DriverTimeout:
+                    d.restart()
+                    verdict = "timeout"
+                except DriverDied as ex:
+                    d.restart()
+                    verdict = "died:%s" % (ex,)
+            acc.evaluations += 1
+            acc.count("family_" + family)
+            if verdict == "timeout":
+                acc.violate("c11:does-not-terminate", "input %r did not finish within 60 s, twice, alone on an idle driver (%s build)" % (s, kind), {"input": s, "build": kind, "family": family})
+            elif isinstance(verdict, str):
+                acc.violate("c11:process-killed", "input %r kills the process (%s build): %s" % (s, kind, verdict), {"input": s, "build": kind, "family": family})
+            else:
+                judge(acc, s, verdict, kind, family)
+        finally:
+            d.close(kill=True)
+
+def fuzz_stage(acc, seed, bins, vocab, corp, seconds):
+    """Coverage-guided search (libFuzzer + ASan, 16 forks) for inputs; every artifact is re-judged by the ordinary oracle."""
+    from core import fuzz
+    from core.run import OUT
+    r3 = rng_for(seed, PID, "fuzz-seeds")
+    seeds = list(corp)
+    for _ in range(3000):
+        x = r3.random()
+        seeds.append(bound_powers(gen_unicode(r3) if x < 0.2 else gen_soup(r3, vocab) if x < 0.4 else gen_structured(r3, vocab)))
+    dictionary = sorted(set(vocab["units"][:400] + vocab["facts"][:300] + FUNCS + PUNCT + ZEROISH + ["°C", "°F", "e-3", "E+2", "^2", "^-1", " to ", "%"]))
+    try:
+        res = fuzz.run("c11", seeds, dictionary, seconds, os.path.join(OUT, "work", "fuzz-c11"))
+    except Exception as ex:
+        acc.inconc("fuzz stage failed to run: %r" % (ex,))
+        return
+    if res["status"] != "ok":
+        acc.inconc("fuzz stage: %s: %s" % (res["status"], res.get("log_tail", "")[-400:]))
+        return
+    acc.counters["fuzz_executions"] = res["executions"]
+    acc.counters["fuzz_coverage_edges"] = res["coverage"]
+    acc.counters["fuzz_corpus_files"] = res["corpus"]
+    acc.counters["fuzz_crash_artifacts"] = len(res["crashes"])
+    acc.counters["fuzz_timeout_artifacts"] = len(res["timeouts"])
+    acc.counters["fuzz_asan_reports"] = res["asan_reports"]
+    acc.evaluations += res["executions"]
+    for frame in res["asan_in_crate"]:
+        acc.violate("c11:asan:" + frame, "AddressSanitizer report under libFuzzer with a frame in the crate: " + frame, {"frame": frame, "log_tail": res["log_tail"][-1500:]})
+    before = acc.violation_count
+    seen = set()
+    for kind, blobs in (("fuzz-crash", res["crashes"]), ("fuzz-timeout", res["timeouts"])):
+        for blob in blobs[:200]:
+            try:
+                s = blob.decode("utf-8")
+            except UnicodeDecodeError:
+                continue
+            if s in seen or bound_powers(s) != s and kind == "fuzz-timeout":
+                continue
+            seen.add(s)
+            n0 = acc.violation_count
+            run_alone(acc, bins, s, kind)
+            if acc.violation_count == n0:
+                acc.count(kind + "_artifacts_not_reproduced_by_the_oracle")
+                if kind == "fuzz-crash":
+                    acc.inconc("libFuzzer artifact %r does not violate the property when re-judged through vdriver" % (s[:80],))
+
 def run(tier, seed):
     t0 = time.time()
     b = build.build("dbg")
@@ -314,12 +386,16 @@ def run(tier, seed):
     vocab = {"units": units, "facts": fwords}
     corp = corpus()
     n = 48000 if tier == "quick" else 3000000
+    stages = (os.environ.get("VERIF_C11_STAGES") or "random,cli,asan,fuzz").split(",")      # development knob; the registered commands run all stages
+    if "random" not in stages:
+        n = 1600
     payloads = [{"seed": seed, "shard": i, "n": n // NCPU, "vocab": vocab, "corpus": corp, "builds": ["dbg", "rel"], "bins": bins} for i in range(NCPU)]
     acc = run_shards(shard, payloads)
     rng = rng_for(seed, PID, "cli")
     cli_inputs = [bound_powers(gen_soup(rng, vocab)) for _ in range(60 if tier == "quick" else 400)] + [bound_powers(gen_unicode(rng)) for _ in range(40 if tier == "quick" else 200)]
-    cli_sample(acc, b, cli_inputs, 2 if tier == "quick" else 12)
-    if tier == "thorough":
+    if "cli" in stages:
+        cli_sample(acc, b, cli_inputs, 2 if tier == "quick" else 12)
+    if tier == "thorough" and "asan" in stages:
         from core import sanit
         r2 = rng_for(seed, PID, "asan")
         ins = []
@@ -343,6 +419,8 @@ def run(tier, seed):
                 acc.inconc("asan driver stopped after %d of %d inputs (exit %s) without a sanitizer report" % (len(reps), len(ins), code))
         except Exception as ex:
             acc.inconc("asan run failed: %r" % (ex,))
+    if tier == "thorough" and "fuzz" in stages:
+        fuzz_stage(acc, seed, bins, vocab, corp, int(os.environ.get("VERIF_C11_FUZZ_SECONDS") or 600))
     acc.counters["corpus_queries"] = len(corp)
     return finish(PID, tier, seed, "exploration", acc, RULE, t0,
                   assumptions=["inputs are kept inside the property's bounds by a static filter (powers <= 2 digits, product of power magnitudes <= 100, exponents <= 3 digits, round's digits argument <= 2 digits); outside them the repeated-multiplication power loop simply runs long",
